@@ -255,7 +255,7 @@ def page_sets(w):
     return out
 
 
-def pages_image(w, pages, order_mul):
+def pages_image(w, pages, order_mul, seg_order=None):
     """a chain through one 4-word segment per page: op k flips a bit of another segment's data word and jumps on;
     two passes, so evicted pages are touched again. returns (image, expected number of ops)"""
     from fjv.ref import machine as R1
@@ -265,6 +265,14 @@ def pages_image(w, pages, order_mul):
     if len(set(order)) != K:
         order = list(range(K))
     segs = [(0, 2)] + [(b, 6) for b in base]
+    second = None
+    if seg_order:
+        # a second, 2-word segment in every page (64 words above the first), and a segment table that is NOT in ascending order: the order
+        # in which segments are declared means nothing (a table with inversions followed by an ascending tail, a descending tail, interleaved)
+        second = [b + 64 for b in base]
+        firsts, seconds = [(b, 6) for b in base], [(b, 2) for b in second]
+        segs = [(0, 2)] + {'seconds-reversed-then-firsts': seconds[::-1] + firsts, 'firsts-then-seconds-reversed': firsts + seconds[::-1],
+                           'interleaved': [x for pr in zip(seconds[::-1], firsts) for x in pr]}[seg_order]
     data = {0: 0, 1: base[order[0]] * w}
     for i, k in enumerate(order):
         tgt = order[(i * 5 + 3) % K]
@@ -273,7 +281,10 @@ def pages_image(w, pages, order_mul):
         data[base[k]] = (base[tgt] + 4) * w + (i % w)
         data[base[k] + 1] = (base[nxt] * w) if nxt is not None else (base[order[0]] + 2) * w
         tgt2 = order[(i * 3 + 1) % K]
-        data[base[k] + 2] = (base[tgt2] + 5) * w + ((i * 7) % w)
+        data[base[k] + 2] = (base[tgt2] + 5) * w + ((i * 7) % w) if second is None or i % 2 else (second[tgt2] + 1) * w + ((i * 7) % w)
+        if second is not None:
+            data[second[k]] = 0
+            data[second[k] + 1] = 0x33
         data[base[k] + 3] = ((base[nxt] + 2) * w) if nxt is not None else (base[k] + 2) * w  # the last op is a self loop
         data[base[k] + 4] = 0x5A5A & ((1 << w) - 1)
         data[base[k] + 5] = k
@@ -287,14 +298,15 @@ def work_pages(task, prop=None, matchers=None):
     from fjv.ref import machine as R1
     if DEVICE is None:
         DEVICE = make_device_class()
-    _, tier, w, name, mul = task
+    _, tier, w, name, mul = task[:5]
+    seg_order = task[5] if len(task) > 5 else None
     pages = page_sets(w)[name]
-    image, nops = pages_image(w, pages, mul)
+    image, nops = pages_image(w, pages, mul, seg_order)
     r = R1.run(image, [], nops + 10)
     counters = {'images': 1, 'cases': 1, 'engine_runs': 0, 'skipped_horizon': 0, 'nontrivial': 1, 'capped_reads': 0}
     sieve = Sieve(prop or PROP, MATCHERS if matchers is None else matchers)
     assert r.cause == R1.LOOPING and r.ops == nops, (r.cause, r.ops, nops)
-    path = write_image(image, f'pages-{w}-{name}-{mul}.fjm')
+    path = write_image(image, f'pages-{w}-{name}-{mul}-{seg_order}.fjm')
     probe = sorted(r.mem)
     K = 40
     variants = [('featured', 'featured', K, {}, {}), ('fast', 'fast', None, {}, {}), ('paged', 'native-paged', None, {}, {}), ('paged-ring', 'native-paged', K, {}, {}),
@@ -310,7 +322,7 @@ def work_pages(task, prop=None, matchers=None):
             counters['storage:' + o.storage] = counters.get('storage:' + o.storage, 0) + 1
         diffs = compare(r, o, ring, w)
         if diffs:
-            sieve.add({'kind': 'engine/storage-vs-machine (many pages)', 'case': {'w': w, 'page_set': name, 'pages': len(pages), 'order_mul': mul, 'variant': vname,
+            sieve.add({'kind': 'engine/storage-vs-machine (many pages)', 'case': {'w': w, 'page_set': name, 'pages': len(pages), 'order_mul': mul, 'segment_table_order': seg_order, 'variant': vname,
                                                                                  'engine': engine, 'ring': ring, 'kwargs': kw, 'env': env, 'storage': o.storage,
                                                                                  'image': {'w': w}, 'answers': [], 'FAR': None},
                        'expected': {d[0]: (d[1] if d[0] not in ('final_memory', 'last_ops') else '...') for d in diffs},
@@ -388,6 +400,9 @@ def main():
             for name in page_sets(w):
                 for mul in ((1, 7, 11, 13) if args.tier == 'thorough' else (1, 11)):
                     tasks.append(('pages', args.tier, w, name, mul))
+            for name in list(page_sets(w))[:2 if args.tier != 'thorough' else 4]:
+                for seg_order in ('seconds-reversed-then-firsts', 'firsts-then-seconds-reversed', 'interleaved'):
+                    tasks.append(('pages', args.tier, w, name, 11, seg_order))
     total, hist, samples = {}, {}, []
     for counters, h, res, sample in pmap(work, tasks, args.jobs):
         for k, v in counters.items():
